@@ -13,6 +13,9 @@ import traceback
 
 VERIF = os.path.dirname(os.path.dirname(os.path.abspath(__file__)))
 sys.path.insert(0, VERIF)
+# the tree under verification: /repo/src unless a scratch copy is named (mutant self-test)
+SRC_ROOT = os.environ.get("BUMPVER_SRC", "/repo/src")
+sys.path.insert(0, SRC_ROOT)
 
 
 def load_registry():
